@@ -3,7 +3,7 @@
 patch.diff, demo.rs, notes.md, meta.json (what it breaks, what it needs, what was run, which checks catch it)"""
 import json, os, re, shutil, subprocess, sys
 V = os.path.dirname(os.path.dirname(os.path.abspath(__file__)))
-ROUNDS = [('/tmp/seed', ''), ('/tmp/seed2', 'r2'), ('/tmp/seed3', 'r3')]
+ROUNDS = [('/tmp/seed', ''), ('/tmp/seed2', 'r2'), ('/tmp/seed3', 'r3'), ('/tmp/seed4', 'r4')]
 OUT = os.path.join(V, 'seeded')
 MATRIX = '/var/tmp/tau-seed-out'
 
@@ -62,10 +62,10 @@ def main():
             feats = ''
             if P == 'C15':
                 feats = '--features ignore_case'
-            if P == 'C11' and ('--features json' in notes or 'features json' in notes or 'feature json' in notes):
+            if '--features json' in notes or 'features json' in notes or 'feature json' in notes or '`json` feature' in notes:
                 feats = '--features json'
             suite_ok, demo_fail, demo_pass, log = confirm(wt, sd, feats)
-            if P == 'C15' and not demo_fail:
+            if feats and not (demo_fail and demo_pass):
                 # some C15 demonstrations fail in the default build instead
                 s2, f2, p2, log2 = confirm(wt, sd, '')
                 if f2:
